@@ -15,7 +15,7 @@ CLAIMED = {
              "at the complete assignment and the sum of scipy/docstring reference log-densities; one-step vs several-step routes, the "
              "stacked-vector view, Posterior / MultipleLikelihoodPosterior via JointDistribution and BayesianProblem(set_data) must give "
              "the same number; evaluations with missing, unknown, doubly specified or surplus arguments must raise.",
-        text2="A stacked vector with missing or surplus entries must be refused; the joint is evaluated and conditioned a second time after the program (no state left behind).",
+        text2="Shallow and deep copies of the reduced object and of the joint must evaluate like their originals; one LinearModel object serving two unknowns; a latent at 4.2e6 with standard deviation 1e-3. A stacked vector with missing or surplus entries must be refused; the joint is evaluated and conditioned a second time after the program (no state left behind).",
         note="Trusted: scipy.stats reference densities and the C20 reference stencils. Names always given explicitly. One recorded finding "
              "(conditioning an already reduced Posterior on its last variable raises) is excluded and counted.",
         design="3/C01"),
@@ -40,7 +40,7 @@ CLAIMED = {
              "multiple-likelihood posteriors, every returned gradient must equal the numerical derivative of the same object's logd in "
              "parameter space; exceptions are refusals; outside the support a finite vector is a violation; with enable_FD() the "
              "forward-difference gradient must equal the derivative with a looser tolerance.",
-        text2="Gradients evaluated on a buffer that was overwritten in place; translation invariance of GMRF/CMRF gradients under periodic/Neumann boundary conditions; fields of 400-700 nodes (a non-finite log-density at an ordinary field is a violation).",
+        text2="Evaluation points as geometry-carrying arrays (parameters; function values for likelihoods) with an equal geometry built separately; expansion range geometries (gradient must be refused); a sparse model matrix updated in place after the likelihood was built. Gradients evaluated on a buffer that was overwritten in place; translation invariance of GMRF/CMRF gradients under periodic/Neumann boundary conditions; fields of 400-700 nodes (a non-finite log-density at an ordinary field is a violation).",
         note="Trusted: numpy; derivative error estimate |D(h)-D(h/2)| must be below 1e-3 relative or the case is inconclusive; "
              "points at kinks (Laplace location, cusp of CalSom91/donut at the origin) are moved away. PDE-based model gradients: C18.",
         design="3/C03"),
@@ -75,7 +75,7 @@ CLAIMED = {
              "covariance, the map affine and independent of the current state, and the stacked operator's adjoint action the exact "
              "transpose of its forward action. For UGLA the same reading must give mean and covariance of the documented local Gaussian "
              "A^T Gamma^-1 A + (1/scale) D^T W_k D at the current state.",
-        text2="The same problem in units x1e5; a larger, less well conditioned class (second-order GMRF prior, 24/40 unknowns); an MRF on the other grid layout built first; memory layouts of matrix and data. History independence (every class, incl. the one excluded by the recorded UGLA finding): step k of a chain must equal the step a fresh sampler started at the same state makes under the same scripted perturbation. A third of the RTO cases run with cuqi.config.MIN_DIM_SPARSE lowered so that the sparse square-root code path is taken.",
+        text2="A user forward callable failing once inside a step (caught, step repeated); UGLA smoothing parameter re-assigned after set-up. The same problem in units x1e5; a larger, less well conditioned class (second-order GMRF prior, 24/40 unknowns); an MRF on the other grid layout built first; memory layouts of matrix and data. History independence (every class, incl. the one excluded by the recorded UGLA finding): step k of a chain must equal the step a fresh sampler started at the same state makes under the same scripted perturbation. A third of the RTO cases run with cuqi.config.MIN_DIM_SPARSE lowered so that the sparse square-root code path is taken.",
         note="Inner CGLS run with tol 1e-14 and maxit 20n+100 (convergence itself is C16's subject). UGLA with non-zero LMRF location is a "
              "recorded finding (excluded, counted).",
         design="3/C06"),
@@ -115,7 +115,7 @@ CLAIMED = {
              "sample call resumes from the last stored tuple. MH blocks additionally run the C02 decision test against the true current "
              "conditional inside the sweep. Invariance: theta ~ prior, y ~ p(y|theta), s sweeps on p(theta|y) with exact block samplers "
              "must leave theta prior-distributed (KS and variance tests on closed-form pivots, two-stage rule).",
-        text2="A decoy HybridGibbs built with default step counts and re-configured first; tiny-move histories (proposal scales 1e-5 of the usual ones). Block samplers include pCN (decision test against the likelihood ratio of the current conditional, proposal learnt by a dry run with the state restored through get_state/set_state); the sampling_strategy / num_sampling_steps dictionaries are passed in permuted key order and with step counts for a subset of blocks; legacy Gibbs is run as sample(N, Nb>0) followed by sample(M).",
+        text2="numpy integer step counts; a deep copy of the sampler taken mid-run must continue like the original from the same random state. A decoy HybridGibbs built with default step counts and re-configured first; tiny-move histories (proposal scales 1e-5 of the usual ones). Block samplers include pCN (decision test against the likelihood ratio of the current conditional, proposal learnt by a dry run with the state restored through get_state/set_state); the sampling_strategy / num_sampling_steps dictionaries are passed in permuted key order and with step counts for a subset of blocks; legacy Gibbs is run as sample(N, Nb>0) followed by sample(M).",
         note="Statistical part: 600 (quick) / 6000 (thorough) replicates per configuration: detects gross violations of invariance only "
              "(KS sup-distance ~0.07 / 0.02); the history part is exact.",
         design="3/C09"),
@@ -150,7 +150,7 @@ CLAIMED = {
              "ndarray parameters, flagged function values, CUQIarrays in both representations and Samples must equal "
              "range.fun2par(F(domain.par2fun(p))) and be wrapped like the input; gradient must equal J_p^T d (central differences of "
              "forward) or be refused exactly when it cannot be formed; model(distribution) must only rename the input on a copy.",
-        text2="Sub-check pde_model: PDE-based models on ndarray / CUQIarray / function-value / Samples inputs, another PDE model applied to the same array object first, buffers overwritten in place, tiny-step sample collections; user functions return their results in generated memory layouts; image flattening is compared with the pixel order by definition. References for mapped geometries are composed by the harness (wrapped geometry, then map); range geometries include KL/step expansions and mapped geometries around them (gradient must then be refused); user functions are generated both defensively (np.asarray) and as plain array expressions so that geometry-carrying arrays travel through the user's arithmetic; a user subclass of MappedGeometry around an expansion supplies its own gradient; linearisation points are given as parameters, function values and CUQIarrays of either kind, alone and together with a CUQIarray direction; integer-typed and function-value Samples.",
+        text2="Sub-check pde_time_model: outputs of a time-dependent PDE model are kept and compared after later evaluations; representation flags given as numpy booleans (forward, gradient, CUQIarray). Sub-check pde_model: PDE-based models on ndarray / CUQIarray / function-value / Samples inputs, another PDE model applied to the same array object first, buffers overwritten in place, tiny-step sample collections; user functions return their results in generated memory layouts; image flattening is compared with the pixel order by definition. References for mapped geometries are composed by the harness (wrapped geometry, then map); range geometries include KL/step expansions and mapped geometries around them (gradient must then be refused); user functions are generated both defensively (np.asarray) and as plain array expressions so that geometry-carrying arrays travel through the user's arithmetic; a user subclass of MappedGeometry around an expansion supplies its own gradient; linearisation points are given as parameters, function values and CUQIarrays of either kind, alone and together with a CUQIarray direction; integer-typed and function-value Samples.",
         note="Trusted: numpy; central differences with step 1e-6 (tolerance 2e-5). PDE-based models are covered under C18.",
         design="3/C12"),
     "C17": dict(
@@ -162,7 +162,7 @@ CLAIMED = {
              "data - exactData must equal the stated noise exactly (sigma*e, |y|*sigma*e, ||y||/SNR*e); model/data/likelihood/prior/"
              "posterior/get_components() must be the same objects with consistent geometries; posterior.logd must equal the Gaussian "
              "log-likelihood of the stated noise plus prior.logd.",
-        text2="PSFs are compared with their definitions (named 1-D and 2-D kernels, integer and non-integer parameters, PSF_size > dim); the field representation of the PDE problems (field_type incl. a geometry object, then map) is composed by the harness; documented grids are asserted; the problem is unchanged after every single use; construction refusals other than the spline's minimum node count are violations.",
+        text2="Named 2-D phantoms with the caller's global stream untouched; Deconvolution1D arguments by position in the documented order; numpy scalar PSF parameters; deep copies of the PDE problems; Poisson conductivities in units 1e-6 / 1e-9. PSFs are compared with their definitions (named 1-D and 2-D kernels, integer and non-integer parameters, PSF_size > dim); the field representation of the PDE problems (field_type incl. a geometry object, then map) is composed by the harness; documented grids are asserted; the problem is unchanged after every single use; construction refusals other than the spline's minimum node count are violations.",
         note="Trusted: scipy.ndimage.convolve1d as the documented definition of Deconvolution1D; PDE discretisation constants mirror the "
              "problem description; the legacy circulant form is accepted as convolution or correlation with the given kernel.",
         design="3/C17"),
@@ -183,7 +183,7 @@ CLAIMED = {
              "projection idempotence, partition of unity of the step indicators with documented interval membership, batch = "
              "column-wise application, reported shapes = produced shapes, and lossless Samples/CUQIarray conversions. Generated "
              "search; dimensions <= 12 (grids <= 60 nodes in the thorough tier).",
-        text2="Function values and parameters handed over in other memory layouts; step grids in units 1e-6..1e-15 and 1e6; a coupled (non element-wise) map in the geometry family, decided through the sample-collection conversions.",
+        text2="StepExpansion built with positional arguments in the documented order, projection checked against the per-step mean/max/min of a general function; visual_only given as a numpy boolean. Function values and parameters handed over in other memory layouts; step grids in units 1e-6..1e-15 and 1e6; a coupled (non element-wise) map in the geometry family, decided through the sample-collection conversions.",
         note="Trusted: numpy; tolerance 1e-9 for sine-transform round trips; nodes within 1e-9 of a step boundary may belong to either adjacent step.",
         design="3/C13"),
     "C14": dict(
@@ -195,7 +195,7 @@ CLAIMED = {
              "consecutive indices, and equal the finally stored chain column by column (which also shows stored entries are never altered "
              "later); lengths as requested; legacy sample(N, Nb) = last N states of the N+Nb chain, first column = x0; (iv) reinitialize() "
              "must give the get_state() of a newly constructed, initialised sampler and an empty history.",
-        text2="Sub-check burnthin: burn-in and thinning of a recorded chain held as parameters, function values or vectorised function values on 1-D and 2-D geometries (states Nb, Nb+Nt, ... in order; the chain itself unaltered). Histories of warm-up and sampling phases in any order; the first Gibbs chain is unaltered by a continuation.",
+        text2="Callbacks that inspect the sampler's record, fail once (run continued), or are falsy callable objects; the user's log-density failing once mid-transition (continuation = fresh sampler at the same point); a second run of equal length after reinitialize under another stream; a Metropolis block with three transitions per sweep in Gibbs (record = sampler state). Sub-check burnthin: burn-in and thinning of a recorded chain held as parameters, function values or vectorised function values on 1-D and 2-D geometries (states Nb, Nb+Nt, ... in order; the chain itself unaltered). Histories of warm-up and sampling phases in any order; the first Gibbs chain is unaltered by a continuation.",
         note="Random stream = numpy global state. Legacy CWMH (in-place update on a view of the chain, pinned by the existing regression "
              "tests) is a recorded finding, excluded and counted. RegularizedLinearRTO run with a numeric step size.",
         design="3/C14"),
@@ -207,7 +207,7 @@ CLAIMED = {
              "solution; no probe point at 1e-3..1e-1 posterior standard deviations may have a larger logd and the gradient must vanish in "
              "units of the posterior scale; for non-linear problems the estimate must be as good as a multi-start high-precision optimum; "
              "with np.random.randn scripted the direct sampling route must have offset = closed-form mean and B B^T = closed-form covariance.",
-        text2="Vague priors (variance ratio 1e8, conditioning-aware tolerances); a decoy model on the same callables with another domain geometry; non-linear MAP from a far start vector. Cases also materialise covariances with compute_cov() first (closed-form route for prec/sqrtprec/sqrtcov inputs) and pass a generated x0 to MAP. ML by numerical optimisation is accepted when it is the weighted least-squares solution or stationary for the reference log-likelihood within the solver's tolerance.",
+        text2="Sub-check bounded_prior_map (Beta prior, start vectors on the boundary of the support: fail or return a maximiser, never a zero-density point); closed-form reference evaluated in extended precision. Vague priors (variance ratio 1e8, conditioning-aware tolerances); a decoy model on the same callables with another domain geometry; non-linear MAP from a far start vector. Cases also materialise covariances with compute_cov() first (closed-form route for prec/sqrtprec/sqrtcov inputs) and pass a generated x0 to MAP. ML by numerical optimisation is accepted when it is the weighted least-squares solution or stationary for the reference log-likelihood within the solver's tolerance.",
         note="Trusted: numpy.linalg closed forms; scipy optimisers for the multi-start reference. Exceptions are refusals (allowed). "
              "Matrix-backed models with KL/Step geometry are a recorded finding (excluded, counted).",
         design="3/C15"),
@@ -219,7 +219,7 @@ CLAIMED = {
              "worse than perturbed feasible points; LM results must be stationary within gradtol; the SciPy wrappers must reproduce "
              "the direct SciPy call bit for bit; projections/soft-thresholding must equal the closed forms and satisfy the variational "
              "inequality. Iteration-cap exits are inconclusive. Sizes <= 14.",
-        text2="CGLS/PCGLS from a start that already solves the system and with a zero right-hand side; systems in other units (operator x1e-5..1e5, data x1e-6..1e6); user-level tolerance 1e-6; PCGLS with shift and with preconditioners of other overall size; memory layouts of A, b, x0. FISTA from a start vector of another number type (int, float32) must reproduce the run from the same numbers as float64 exactly; step size and proximal map re-assigned on a live solver; LM on problems translated by 1e3 / 1e6; proximal maps with exact zeros; CGLS/PCGLS non-convergence on a well-conditioned system is a violation.",
+        text2="SciPy wrappers with bounds / constraints and three solve() calls on one object; float32 data vectors; start vectors written as float32 / integers. CGLS/PCGLS from a start that already solves the system and with a zero right-hand side; systems in other units (operator x1e-5..1e5, data x1e-6..1e6); user-level tolerance 1e-6; PCGLS with shift and with preconditioners of other overall size; memory layouts of A, b, x0. FISTA from a start vector of another number type (int, float32) must reproduce the run from the same numbers as float64 exactly; step size and proximal map re-assigned on a live solver; LM on problems translated by 1e3 / 1e6; proximal maps with exact zeros; CGLS/PCGLS non-convergence on a well-conditioned system is a violation.",
         note="Trusted: numpy.linalg, SciPy optimisers as reference; LM is exercised with gradtol >= 1e-8 (tighter tolerances are "
              "not reachable in floating point on large-residual problems, see DESIGN).",
         design="3/C16"),
